@@ -23,13 +23,33 @@ CHECKS = {
   text="Bounded symbolic model checking for crashes: every path of every NumGen program and of 35 odd-but-valid programs (save from non-sources, repeated balance() lookups, negative arithmetic, missing/extra/ill-formed variables, bad metadata) with symbolic amounts and balances; any Go panic or exhausted instruction budget on a feasible path is a violation with solver-produced inputs, replayed natively; the compiled Program is executed twice and must behave identically.",
   note="Arbitrary byte strings into the ANTLR lexer/parser are outside the claim (not encodable). Trusted: engine, solver, native compiler.",
   ref="DESIGN §5 C12"),
+ "C09": dict(
+  text="Bounded symbolic model checking through the real Commander: 552 posting patterns (all 1- and 2-posting combinations over {world,a,b,c}x{USD/2,EUR}, 8 three-posting patterns) with symbolic amounts and balances run Postings.Validate, TxToScriptData, the native compiler, the symbolic VM, locker, batcher and in-memory store; the committed transaction and the persisted log are compared posting by posting with the request, rejection must leave nothing behind, and acceptance must coincide with in-order coverage.",
+  note="The HTTP handlers are outside the claim (JSON text cannot carry a symbolic amount). Trusted: engine, solver, InMemoryStore as the durable store.",
+  ref="DESIGN §5 C09"),
+ "C10": dict(
+  text="Bounded symbolic model checking of RevertTransaction through the real Commander: 9 original posting patterns x forced/unforced x with/without an intermediate spend, symbolic non-negative amounts and balances; revert postings = reversed original with swapped ends, reverted flag, balances restored when nothing moved, unforced revert refused with insufficient funds and never overdrawing, second revert refused.",
+  note="Racing reverts (schedules) are not part of this check. Trusted: engine, solver, InMemoryStore.",
+  ref="DESIGN §5 C10"),
+ "C13": dict(
+  text="Bounded symbolic model checking of the log round trip: every log kind the commander can write (7 write kinds incl. delete-metadata on accounts and transactions) is produced by the real write path with symbolic ids and amounts, encoded by the rope-level JSON model (interpreting the repository's MarshalJSON/UnmarshalJSON methods), decoded by ChainedLog.UnmarshalJSON/HydrateLog, re-encoded (text equality decided on ropes) and its hash recomputed from the round-tripped entry and its predecessor.",
+  note="encoding/json is a model (validated on witness replays), sha256 is an injective token; arbitrary Unicode metadata and RFC3339Nano formatting of arbitrary instants are outside the claim; transaction ids < 2^62.",
+  ref="DESIGN §5 C13"),
+ "C14": dict(
+  text="Two-world differential, bounded symbolic model checking: for each of 7 write kinds, [preview w; real w; real r] against [real w; real r] from the same symbolic pre-state (last log id L, last transaction id N, balance) — preview persists and publishes nothing and consumes no id, answers what the real write answers, and every later response, id, log entry and event is identical in both worlds.",
+  note="Sequential requests; restarts after a preview are covered by the symbolic pre-state (Init only reads the tail). Trusted: engine, solver, InMemoryStore.",
+  ref="DESIGN §5 C14"),
+ "C16": dict(
+  text="Bounded symbolic model checking of event emission: per write kind x {real, preview, repeated through an idempotency key} every bus.Monitor call is matched against a persisted log entry (transaction ids symbolic; for reverts which transaction is reverted and which reverts), previews and refused writes publish nothing, every persisted change is published at least once.",
+  note="The monitor is a recording bus.Monitor; publish.NewMessage/watermill are not executed. Concurrent emission is not part of this check.",
+  ref="DESIGN §5 C16"),
 }
 
 NA = {
  "C04": "the projection of logs into balances/volumes is PL/pgSQL executed by PostgreSQL; there is no Go code to encode and no PostgreSQL in the sandbox (DESIGN §6)",
 }
 
-PENDING = {'C02': 'check under construction in this session (engine built; harness not yet registered) — listed here until its check runs clean', 'C05': 'check under construction in this session (engine built; harness not yet registered) — listed here until its check runs clean', 'C06': 'check under construction in this session (engine built; harness not yet registered) — listed here until its check runs clean', 'C07': 'check under construction in this session (engine built; harness not yet registered) — listed here until its check runs clean', 'C09': 'check under construction in this session (engine built; harness not yet registered) — listed here until its check runs clean', 'C10': 'check under construction in this session (engine built; harness not yet registered) — listed here until its check runs clean', 'C11': 'check under construction in this session (engine built; harness not yet registered) — listed here until its check runs clean', 'C13': 'check under construction in this session (engine built; harness not yet registered) — listed here until its check runs clean', 'C14': 'check under construction in this session (engine built; harness not yet registered) — listed here until its check runs clean', 'C15': 'check under construction in this session (engine built; harness not yet registered) — listed here until its check runs clean', 'C16': 'check under construction in this session (engine built; harness not yet registered) — listed here until its check runs clean', 'C17': 'check under construction in this session (engine built; harness not yet registered) — listed here until its check runs clean', 'C18': 'check under construction in this session (engine built; harness not yet registered) — listed here until its check runs clean', 'C19': 'check under construction in this session (engine built; harness not yet registered) — listed here until its check runs clean', 'C20': 'check under construction in this session (engine built; harness not yet registered) — listed here until its check runs clean'}
+PENDING = {'C02': 'check under construction in this session (engine built; harness not yet registered) — listed here until its check runs clean', 'C05': 'check under construction in this session (engine built; harness not yet registered) — listed here until its check runs clean', 'C06': 'check under construction in this session (engine built; harness not yet registered) — listed here until its check runs clean', 'C07': 'check under construction in this session (engine built; harness not yet registered) — listed here until its check runs clean', 'C11': 'check under construction in this session (engine built; harness not yet registered) — listed here until its check runs clean', 'C15': 'check under construction in this session (engine built; harness not yet registered) — listed here until its check runs clean', 'C17': 'check under construction in this session (engine built; harness not yet registered) — listed here until its check runs clean', 'C18': 'check under construction in this session (engine built; harness not yet registered) — listed here until its check runs clean', 'C19': 'check under construction in this session (engine built; harness not yet registered) — listed here until its check runs clean', 'C20': 'check under construction in this session (engine built; harness not yet registered) — listed here until its check runs clean'}
 
 def main():
     checks = []
